@@ -588,6 +588,7 @@ func runC15(c *Ctx) {
 	c.Rule("R15.1", 6, "unordered iteration (Go maps, hash-based dependency collections) must not leak into output or diagnostics")
 	c.Rule("R15.2", 3, "randomness/time/pid are confined to the decorative emoji helpers")
 	c.Rule("R15.3", 1, "no goroutines, channels or WaitGroups in reachable module code")
+	c.Rule("R15.4", 1, "a recovered dependency panic does not depend on the iteration order of an unordered collection")
 
 	main := c.mainFunc()
 	if main == nil {
@@ -817,6 +818,7 @@ func runC15(c *Ctx) {
 		c.Pass("R15.2", "no randomness, clock or pid source is reachable", token.NoPos, "")
 	}
 
+	checkRecoveredPanicOrder(c, "R15.4", ri)
 	// R15.3 no scheduling
 	sched := 0
 	for _, f := range ri.module() {
